@@ -272,13 +272,43 @@ def _reopen(r, fn, body, twin):
             sp = [e for e in s.events if sh(e) == "Set_punch_ostream" and so_definition(e.recv, e)]
             nd = [e for e in s.events if sh(e) == "Set_new_def" and so_definition(e.recv, e)]
             tp = [e for e in s.events if sh(e) == "tidy_punch"]
-            g = len(sp) == 1 and len(nd) == 1 and len(tp) == 1 and nd[0].args[0] is not tm.FALSE and proved(s.pc, tm.to_bool(nd[0].args[0])) and s.events.index(sp[0]) < s.events.index(tp[0]) and s.events.index(nd[0]) < s.events.index(tp[0])
-            ok(r, "reopen.opened.definition_gets_a_stream_its_new_def_is_raised_then_tidy_punch_writes_the_headings[path %d]" % j, g, "trace+z3", repr(sp + nd + tp)[:240])
+            # the headings are written ONCE behind the loop over the definitions (every tidy_punch call writes the headings of all new definitions to all
+            # their sinks: a call per re-opened file puts the heading of a later block twice into its string) - see _reopen_headings_once below
+            g = len(sp) == 1 and len(nd) == 1 and len(tp) == 0 and nd[0].args[0] is not tm.FALSE and proved(s.pc, tm.to_bool(nd[0].args[0]))
+            ok(r, "reopen.opened.definition_gets_a_stream_and_its_new_def_is_raised(headings_written_behind_the_loop)[path %d]" % j, g, "trace+z3", repr(sp + nd + tp)[:240])
             src = sp[0].args[0] if sp else None
             ok(r, "reopen.opened.the_stream_handed_over_is_the_wrapper's_freshly_opened_one[path %d]" % j, src is not None and not reaches_engine(src) and "punch_ostream" in repr(src), "trace", repr(src)[:120])
         else:
             ok(r, "reopen.path_decides_whether_the_file_was_opened[path %d]" % j, False, "symex", repr(s.pc)[-200:])
     ok(r, "reach.reopen_cases", seen == {"skip", "failed", "opened"}, "symex", sorted(seen), kind="vacuity", undecided=True)
+    # headings once: the loop that holds the re-open statement contains no tidy_punch call; directly behind it exactly one tidy_punch call stands under
+    # a test of a local flag that is lowered before the loop and raised exactly on the `opened` paths
+    loops = [x for x in A.walk(body) if x.get("kind") == "ForStmt" and any(z is ifs[0] for z in A.walk(x))]
+    loop = loops[-1] if loops else None
+    parent = None
+    if loop is not None:
+        for x in A.walk(body):
+            if x.get("kind") == "CompoundStmt" and any(y is loop for y in x.get("inner", [])):
+                parent = x
+    good = False; det = "loop / enclosing block not found"
+    if parent is not None:
+        sib = parent["inner"]; k = [i for i, y in enumerate(sib) if y is loop][0]
+        inside = _calls_in(loop, "tidy_punch")
+        after = [y for y in sib[k + 1:] if _calls_in(y, "tidy_punch")]
+        flag = None
+        if len(after) == 1 and after[0].get("kind") == "IfStmt":
+            cnd = strip(after[0]["inner"][0])
+            if cnd.get("kind") == "DeclRefExpr":
+                flag = cnd.get("referencedDecl", {}).get("name")
+        vids = [x.get("id") for x in A.walk(body) if x.get("kind") == "VarDecl" and x.get("name") == flag] if flag else []
+        def _is_true(v):
+            return v is tm.TRUE or (isinstance(v, tm.T) and tm.isnum(v) and v.args[0] == 1)
+        raised = [j for j, s in enumerate(fin) if any(_is_true(s.locals.get(v)) for v in vids)]
+        opened_paths = [j for j, s in enumerate(fin) if [e for e in s.events if sh(e) == "punch_open"] and proved(s.pc, tm.to_bool([e for e in s.events if sh(e) == "punch_open"][0].result))]
+        lowered = any(y.get("kind") == "DeclStmt" and flag and flag in A.squeeze(text_of(IPQ, y)) and "false" in A.squeeze(text_of(IPQ, y)) for y in sib[:k])
+        good = (not inside) and len(after) == 1 and flag is not None and lowered and (sorted(raised) == sorted(opened_paths) if not twin else False)
+        det = "tidy_punch inside the loop: %s; behind it: %d; flag %s lowered before: %s; raised on paths %s, opened paths %s" % (inside, len(after), flag, lowered, raised, opened_paths)
+    ok(r, "reopen.headings_written_once_behind_the_loop_exactly_when_a_file_was_reopened", good, "ast+trace", det)
 
 
 # ---------------------------------------------------------------------------------------------------- per-call functions: frame
